@@ -1,5 +1,6 @@
 import ActixModel.Proofs.Multipart
 import ActixModel.Proofs.MultipartScan
+import ActixModel.Proofs.MultipartTerm
 /-
 C15 — multipart parsing is exact, segmentation-independent, terminating and buffer-bounded.
 Model: `ActixModel/Model/Multipart.lean`; helper lemmas: `ActixModel/Proofs/Multipart.lean`.
@@ -48,6 +49,33 @@ theorem C15_no_hang (boundary : Bytes) (form : Bool) (limit : Nat) (plans : List
   simp only [events, List.mem_map, List.mem_reverse] at hmem
   obtain ⟨x, hx, hxe⟩ := hmem
   exact this x hx hxe
+
+/-- **C15_terminates.** Every run is over after at most `fuelFor script` consumer polls
+(`8·(bytes + script items) + 8`): each poll that does not end the run strictly decreases a measure of
+the bytes still in the script / kept back / buffered, the script items, the consumer's mode and the
+recorded wake-up. No livelock: the task cannot keep waking itself for ever. -/
+theorem C15_terminates (boundary : Bytes) (form : Bool) (limit : Nat) (plans : List (Option Nat))
+    (script : List Tok) :
+    (run Cfg.fixed (fuelFor script) (initSys boundary form limit plans script)).finished = true :=
+  run_finishes Cfg.fixed rfl rfl _ _ (muSys_init boundary form limit plans script)
+
+/-- **C15_decides.** Every body — well-formed, malformed, truncated anywhere, cut anywhere, with any
+Pendings and empty chunks, under any buffer limit and consumer plan — ends in a decision: the last
+event is `EOF` or an error. (`C15_terminates` + `C15_no_hang`.) -/
+theorem C15_decides (boundary : Bytes) (form : Bool) (limit : Nat) (plans : List (Option Nat))
+    (script : List Tok) :
+    ∃ evs last, events (run Cfg.fixed (fuelFor script) (initSys boundary form limit plans script)) = evs ++ [last]
+      ∧ (last = .eof ∨ ∃ e, last = .fail e) := by
+  have hfin := C15_terminates boundary form limit plans script
+  have hnh := C15_no_hang boundary form limit plans script (fuelFor script)
+  obtain ⟨e, k, rest, ht, hterm⟩ := run_terminal Cfg.fixed (fuelFor script) _ (by simp [initSys]) hfin
+  refine ⟨(rest.reverse.map (·.1)), e, by simp [events, ht], ?_⟩
+  rcases hterm with h | h | h
+  · exact Or.inl h
+  · exfalso
+    apply hnh
+    simp [events, ht, h]
+  · exact Or.inr h
 
 /-- F6 (code at the pinned commit): body cut after `d CR LF`, then end of stream ⇒ HANG -/
 theorem witness_F6_truncated_body_hangs :
